@@ -23,7 +23,8 @@ IMPORTS = "From U2F Require Import Base.Prelude Geometry.Model Geometry.Cff Geom
 RULE = ("random component DAGs with anchors (depth <= 4, shared bases, all matrix classes) x filter in {DecomposeComponents, "
         "DecomposeTransformedComponents, FlattenComponents, Transformations(OffsetX/Y, ScaleX/Y in +-{25,50,100,200,400}%, Origin), "
         "PropagateAnchors} x include in {all, random subset, exclude subset} x both UFO libraries. Non-trivial = the filter "
-        "reported at least one modified glyph; distinct by generated content.")
+        "reported at least one modified glyph; distinct by generated content."
+        " The requested transformation matrix is computed from the options and the font's cap/x-height independently of the filter (half heights rounded half up; heights whose halves end in .5).")
 ASSUMPTIONS = ["IEEE doubles are exact on the generated dyadic inputs"]
 
 FN_PRES = ("fun c : (glyphset * glyphset * list str) => let '(gs, gs', names) := c in "
